@@ -136,7 +136,9 @@ def step (st : St) : Act → Option St
   | .writeFailed c =>
       -- the write failed: close(call.timeout), then closeWithError(err) on the caller's own goroutine
       match st.pc c with
-      | .reg _ => some (beginClose { st with pc := upd st.pc c (.done .writeErr), tclosed := upd st.tclosed c true } true)
+      | .reg _ =>
+          let st1 := beginClose st true
+          some { st1 with pc := upd st1.pc c (.done .writeErr), tclosed := upd st1.tclosed c true }
       | _ => none
   | .wrote c =>
       match st.pc c with
